@@ -132,6 +132,12 @@ class ConcFamily(Family):
             dict(pre=[carol, A(300, "3", "l", "99")], threads=[t0, ["R:f", "S:f"]], post=post2 + [L(99, "dave", tag="9"), A(301, "3", "o", "99")]),
             dict(pre=[], threads=[t0, [carol, A(200, "2", "l", "88")], ["S:f"]], post=[A(201, "2", "o", "88")]),
             dict(pre=[carol], threads=[t0, [A(200, "2", "l", "88")], ["R:f"]], post=[A(201, "2", "o", "88")]),
+            # a late login releases the held events (its first write stalls) while the next event of the same session is
+            # delivered: that event must come after everything that was held (C02's order, under concurrency)
+            dict(pre=[A(100, "1", "l", "77"), A(101, "1", "o", "77"), A(102, "1", "o", "77")],
+                 threads=[[L(77, "alice", tag="5")], [A(103, "1", "o", "77")]], post=[A(104, "1", "d", "77")]),
+            dict(pre=[carol, A(100, "1", "l", "77"), A(101, "1", "o", "77")],
+                 threads=[[L(77, "alice", tag="5")], [A(102, "1", "o", "77"), A(200, "2", "l", "88")], [A(103, "1", "d", "77")]], post=[A(201, "2", "o", "88")]),
         ]
         for hcase in holds:
             for rep in range(2 if tier == "quick" else 6):
